@@ -122,7 +122,7 @@ def build_core(flavour="plain"):
         lk.close()
 
 
-def build_harness(name, flavour="plain", needs_core=True, extra_srcs=(), extra_flags=(), libs=()):
+def build_harness(name, flavour="plain", needs_core=True, extra_srcs=(), extra_flags=(), libs=(), compile_extra=False):
     """Compile /verif/harness/<name>.cpp against the current /repo sources."""
     hsrc = os.path.join(VERIF, "harness", name + ".cpp")
     common = os.path.join(VERIF, "harness", "common.hpp")
@@ -147,7 +147,7 @@ def build_harness(name, flavour="plain", needs_core=True, extra_srcs=(), extra_f
         shutil.rmtree(tmp, ignore_errors=True)
         os.makedirs(tmp)
         cmd = ["g++"] + flags + list(extra_flags) + ["-I" + os.path.join(VERIF, "harness"),
-                                                   hsrc, "-o", os.path.join(tmp, name)]
+                                                   hsrc] + (extra if compile_extra else []) + ["-o", os.path.join(tmp, name)]
         if lib:
             cmd += [lib]
         cmd += list(libs) + ["-lpthread"]
@@ -160,6 +160,13 @@ def build_harness(name, flavour="plain", needs_core=True, extra_srcs=(), extra_f
         return exe
     finally:
         lk.close()
+
+
+def build_cli(flavour="plain"):
+    """The real CLI (cli.cpp + update manager + core) behind harness/cli_harness.cpp's main."""
+    return build_harness("cli_harness", flavour=flavour,
+                         extra_srcs=["src/bloch/cli/cli.cpp", "src/bloch/update/update_manager.cpp"],
+                         extra_flags=["-DCPPHTTPLIB_OPENSSL_SUPPORT"], libs=["-lssl", "-lcrypto"], compile_extra=True)
 
 
 def lake_build(targets=("BlochVerif", "driver")):
